@@ -373,6 +373,14 @@ func (Engine) Run(c *simkit.Choices, x *simkit.Ctx) *simkit.Violation {
 		}
 	}
 	evs, src := genStream(c, x, te)
+	if c.N(1500) == 0 {
+		// far beyond every pre-allocated size or narrow counter
+		evs, src = extremeStream(c)
+		sameTypeSource = nil
+		te = model.TypeByName([]string{"[]int", "[]int8", "[]interface{}", "interface{}", "map[string]int", "map[string]interface{}", "[]string", "[]Empty", "[][]string", "Strs"}[c.N(10)])
+		unfolderVariant = 0
+		st.Probe("extreme-stream")
+	}
 	var treeSrc *model.Tree
 	if te == &model.TreeEntry {
 		tr := model.GenTree(c, 0)
@@ -504,7 +512,16 @@ func (Engine) Run(c *simkit.Choices, x *simkit.Ctx) *simkit.Violation {
 			return &simkit.Violation{Kind: "unsupported-target-accepted", Site: site,
 				Detail: "SetTarget accepted a target type the library cannot handle safely", Scenario: sc}
 		}
-		if lim := uint64(1<<20 + 4096*r.delivered); r.alloc > lim {
+		// proportional to what was actually received: a constant per event
+		// (the library pre-allocates at most 1024 elements on the strength of
+		// an announced length, so the constant depends on the largest slice
+		// element of the target) plus the string payload (copied once by the
+		// library and once by the by-reference delivery of this harness)
+		payload := 0
+		for _, e := range stream[:r.delivered] {
+			payload += len(e.S)
+		}
+		if lim := uint64(1<<20) + uint64(r.delivered)*perEventAllowance(te) + 4*uint64(payload); r.alloc > lim {
 			r2 := deliverPrefix(te, preset, stream, k, sc.ByRef, exactAlloc, &simkit.Ctx{Stats: st})
 			if r2.alloc > lim {
 				return &simkit.Violation{Kind: "alloc", Site: site,
@@ -646,4 +663,84 @@ func trunc(s string, n int) string {
 		return s[:n] + "…"
 	}
 	return s
+}
+
+// extremeStream draws a well-formed stream with very many elements or members,
+// very deep nesting or a very long string.
+func extremeStream(c *simkit.Choices) ([]simkit.Ev, string) {
+	counts := []int{255, 256, 257, 65535, 65536, 65537, 100001}
+	var evs []simkit.Ev
+	switch c.N(4) {
+	case 0:
+		n := counts[c.N(len(counts))]
+		ann := int64(-1)
+		if c.Bool() {
+			ann = int64(n)
+		}
+		evs = append(evs, simkit.Ev{K: simkit.KArrStart, I: ann})
+		for i := 0; i < n; i++ {
+			evs = append(evs, simkit.Ev{K: simkit.KInt64, I: int64(i % 100)})
+		}
+		return append(evs, simkit.Ev{K: simkit.KArrEnd}), fmt.Sprintf("extreme: array of %d integers", n)
+	case 1:
+		n := counts[c.N(len(counts))]
+		evs = append(evs, simkit.Ev{K: simkit.KObjStart, I: -1})
+		for i := 0; i < n; i++ {
+			evs = append(evs, simkit.Ev{K: simkit.KKey, S: fmt.Sprintf("k%06d", i)}, simkit.Ev{K: simkit.KInt64, I: int64(i % 100)})
+		}
+		return append(evs, simkit.Ev{K: simkit.KObjEnd}), fmt.Sprintf("extreme: object of %d members", n)
+	case 2:
+		n := []int{1025, 10001, 65537, 100001}[c.N(4)]
+		for i := 0; i < n; i++ {
+			evs = append(evs, simkit.Ev{K: simkit.KArrStart, I: -1})
+		}
+		evs = append(evs, simkit.Ev{K: simkit.KStr, S: "leaf"})
+		for i := 0; i < n; i++ {
+			evs = append(evs, simkit.Ev{K: simkit.KArrEnd})
+		}
+		return evs, fmt.Sprintf("extreme: %d nested arrays", n)
+	default:
+		n := []int{65535, 65536, 65537, 1<<20 + 1}[c.N(4)]
+		return []simkit.Ev{{K: simkit.KArrStart, I: 1}, {K: simkit.KStr, S: strings.Repeat("s", n)}, {K: simkit.KArrEnd}}, fmt.Sprintf("extreme: string of %d bytes", n)
+	}
+}
+
+var allowance = map[string]uint64{}
+
+// perEventAllowance returns 4 KiB + 1024 x the size of the largest slice
+// element reachable in the target type (16 bytes for what interface{} targets
+// build: []interface{}).
+func perEventAllowance(te *model.TypeEntry) uint64 {
+	if a, ok := allowance[te.Name]; ok {
+		return a
+	}
+	max := uintptr(16)
+	seen := map[reflect.Type]bool{}
+	var walk func(t reflect.Type)
+	walk = func(t reflect.Type) {
+		if seen[t] {
+			return
+		}
+		seen[t] = true
+		switch t.Kind() {
+		case reflect.Slice:
+			if t.Elem().Size() > max {
+				max = t.Elem().Size()
+			}
+			walk(t.Elem())
+		case reflect.Ptr, reflect.Array:
+			walk(t.Elem())
+		case reflect.Map:
+			walk(t.Elem())
+		case reflect.Struct:
+			for i := 0; i < t.NumField(); i++ {
+				walk(t.Field(i).Type)
+			}
+		}
+	}
+	ptr, _, _ := te.NewTarget()
+	walk(reflect.TypeOf(ptr).Elem())
+	a := 4096 + 1024*uint64(max)
+	allowance[te.Name] = a
+	return a
 }
